@@ -1095,6 +1095,35 @@ func (rc *recorder) variants(of, ci int, c *caseT, alg string, privs map[string]
 		s.F["OrigTtl"] = anyBytes(be32(0x12345678).Bytes())
 		forge("forge-origttl", s, key, mapSet(func(i int, a *wire.RR) { a.Ttl = be32(uint32(i)) }))
 	}
+	// ---- names that differ in ONE octet by 0x20, for every octet value: only the 26 letter pairs are the same name
+	// (RFC 4343).  A rotating window of octet values per signature; the three quick shards together cover all 256.
+	{
+		nx := 6
+		if hx.Thorough() {
+			nx = 32
+		}
+		g := 16*int(hx.Seed()%1000) + ci
+		for j := 0; j < nx; j++ {
+			x := byte((g*nx + j) % 256)
+			la, lb := []byte{'q', x, '1'}, []byte{'q', x ^ 0x20, '1'}
+			// (a) signer (and zone of the RRset) spelled with x, the DNSKEY owner with x^0x20
+			za, zb := append(name{la}, c.zone...), append(name{lb}, c.zone...)
+			oa := append(name{[]byte("www")}, za...)
+			s := clone(sig)
+			s.Owner = toB(oa)
+			s.F["SignerName"] = anyName(za)
+			s.F["Labels"] = float64(len(oa))
+			k := clone(key)
+			k.Owner = toB(zb)
+			forge("forge-key-owner-xor20", s, k, mapSet(func(i int, a *wire.RR) { a.Name = toB(oa) }))
+			// (b) the RRset owner spelled with x, the RRSIG owner with x^0x20
+			ra, rb := append(name{la}, c.zone...), append(name{lb}, c.zone...)
+			s = clone(sig)
+			s.Owner = toB(rb)
+			s.F["Labels"] = float64(len(ra))
+			forge("forge-rrsig-owner-xor20", s, key, mapSet(func(i int, a *wire.RR) { a.Name = toB(ra) }))
+		}
+	}
 	// ---- every bit of the RRSIG RDATA and of the DNSKEY RDATA
 	if flips {
 		rd := sigRdata(sig)
